@@ -109,12 +109,18 @@ Incomparable(r) ==
     \E q \in AttributedPeers(r.tampered.data.trace) \cap AttributedPeers(r.prev.trace) :
         ~Nested(CidBag(r.tampered.data.trace, q), CidBag(r.prev.trace, q))
 C15a(r) == Incomparable(r) => (Class(r.out.code) = "prep" /\ r.out.eqprev /\ r.out.nnext = 0)
-\* otherwise a run that returns new data keeps for each peer the larger bag
+\* otherwise a run that returns new data keeps what the victim already held, and holds for every other peer nothing
+\* beyond the larger of the two versions (what the victim's execution does not reach in the incoming data - the
+\* attacker may have cut his own results off behind a pending mark - is legitimately absent)
+MaxCount(b1, b2, c) ==
+    LET n1 == IF c \in DOMAIN b1 THEN b1[c] ELSE 0  n2 == IF c \in DOMAIN b2 THEN b2[c] ELSE 0 IN IF n1 >= n2 THEN n1 ELSE n2
 C15b(r) ==
     (~Incomparable(r) /\ ReturnsNewData(r.out.code)) =>
-        \A q \in AttributedPeers(r.tampered.data.trace) \cup AttributedPeers(r.prev.trace) :
+        \A q \in AttributedPeers(r.tampered.data.trace) \cup AttributedPeers(r.prev.trace) \cup AttributedPeers(r.out.data.trace) :
             /\ BagSubset(CidBag(r.prev.trace, q), CidBag(r.out.data.trace, q))
-            /\ BagSubset(CidBag(r.tampered.data.trace, q), CidBag(r.out.data.trace, q))
+            /\ (q # "B" =>
+                  LET o == CidBag(r.out.data.trace, q) IN
+                  \A c \in DOMAIN o : o[c] <= MaxCount(CidBag(r.prev.trace, q), CidBag(r.tampered.data.trace, q), c))
 
 CheckInit == cs = [family |-> "none"] /\ l = 1
 CheckNext == l <= Len(Rec) /\ l' = l + 1 /\ cs' = Rec[l].case
